@@ -36,6 +36,7 @@ OpInit(P) ==
    st |-> [k \in 1..P.K |-> {P.pre[x][2] : x \in {y \in 1..Len(P.pre) : P.pre[y][1] = k - 1}}],
    ext |-> [k \in 1..P.K |-> [n \in {P.pre[x][2] : x \in {y \in 1..Len(P.pre) : P.pre[y][1] = k - 1}} |-> P.l + 1]],
    pw |-> <<0, 0>>, fresh |-> FALSE,
+   wrote |-> [k \in 1..P.K |-> {}],
    armed |-> 0, tape |-> 0, adj |-> P.l + 1, t |-> 0,
    wlog |-> [k \in 1..P.K |-> <<>>]]
 
@@ -49,7 +50,10 @@ Rst(f, S) == [x \in (DOMAIN f) \cap S |-> f[x]]
 (* Write_Forward is carried out by the Forward that IMMEDIATELY follows it, and the          *)
 (* checkpoint then covers the steps of that Forward (its extent `ext`): it may be read only  *)
 (* while the adjoint has not yet passed beyond that extent (C01: "covers the steps still to  *)
-(* be recomputed").                                                                          *)
+(* be recomputed").  A slot (level, step) is written at most once: the converter's          *)
+(* last-read rule is per (level, step) over the whole list, not per write - the replay of    *)
+(* TLC-generated programs into the real converter (harness/opreplay.py) showed that a        *)
+(* program re-writing a released slot is converted to a stream that overwrites (C01).        *)
 Pending(s) == s.pw[1] # 0 \/ s.armed # 0
 ConvPre(s, o) ==
   Cl("OP.write_then_forward", Pending(s) => (OTy(o) = OF /\ (s.pw[1] # 0 => OA(o) = s.pw[2])))
@@ -68,6 +72,7 @@ OpClauses(P, s, o, last) ==
          Cl("OP.level", LevOK(P, o))
          \cup Cl("OP.write_buf", s.buf = a)
          \cup Cl("OP.write_fresh", a \notin s.st[k])
+         \cup Cl("OP.write_once", a \notin s.wrote[k])     \* the converter identifies a checkpoint by (level, step)
          \cup Cl("OP.capacity", P.cap[k] = Unl \/ Cardinality(s.st[k] \cup {a}) <= P.cap[k])
     [] OTy(o) = OR ->
          Cl("OP.level", LevOK(P, o))
@@ -103,7 +108,7 @@ OpEffect(P, s, o, last) ==
                                   !.ext = IF s.pw[1] # 0 /\ s.pw[2] \in s.st[s.pw[1]]
                                             THEN [@ EXCEPT ![s.pw[1]] = Upd(@, s.pw[2], b)] ELSE @]
     [] OTy(o) = OB  -> [s1 EXCEPT !.adj = b, !.buf = NoBuf, !.pw = <<0, 0>>]
-    [] OTy(o) = OW  -> [s1 EXCEPT !.st[k] = @ \cup {a}, !.ext[k] = Upd(@, a, a), !.pw = <<k, a>>, !.wlog[k] = Append(@, a)]
+    [] OTy(o) = OW  -> [s1 EXCEPT !.st[k] = @ \cup {a}, !.ext[k] = Upd(@, a, a), !.pw = <<k, a>>, !.wrote[k] = @ \cup {a}, !.wlog[k] = Append(@, a)]
     [] OTy(o) = OR  -> [s1 EXCEPT !.buf = a, !.fresh = TRUE, !.st[k] = IF last THEN @ \ {a} ELSE @,
                                   !.ext[k] = IF last THEN Rst(@, s.st[k] \ {a}) ELSE @, !.pw = <<0, 0>>]
     [] OTy(o) = OD  -> [s1 EXCEPT !.st[k] = @ \ {a}, !.ext[k] = Rst(@, s.st[k] \ {a}), !.pw = <<0, 0>>]
